@@ -44,6 +44,13 @@ def main(argv):
         print('INTERNAL: harness error\n' + traceback.format_exc())
         return 2
     rep.rule = cfg.get('rule', '')
+    # extraction cross-check: a sample of this run's requests re-evaluated inside Coq (vm_compute)
+    try:
+        from . import xcheck
+        rep.xchecked = xcheck.crosscheck(rep.xreqs[:12 if tier == 'quick' else 120], tag=prop)
+    except Exception as e:
+        print('INTERNAL: extraction cross-check failed: %s' % e)
+        return 2
 
     # ---- 3. verdict
     from .known import match_known
